@@ -8,7 +8,7 @@ import vmcommon as M
 sys.path.insert(0, os.path.join(V.VERIF, "translators"))
 import consts as consts_translator
 
-# names of the switches of coq/VM/SchedDefs.v that describe the code BEFORE the proposed repair
+# names of the switches of coq/VM/SchedDefs.v that describe the code BEFORE repo commit f22674f (used only by the _refuted witnesses in Coq)
 SW_RESTART = "empty_restart_skips_deadline"
 SW_IDLE = "idle_scheduler_skips_deadline"
 
@@ -89,11 +89,49 @@ def markers(obs):
         i = e + 2
 
 
-def diag_codes(obs):
-    """the level:code entries of one S/T observation"""
-    body = obs.split(":", 2)[2] if obs.count(":") >= 2 else ""
+def diag_codes(events):
+    """the level:code entries of an event string (the <events> part of an S/T observation)"""
     out = []
-    for part in body.split(","):
-        if part and not part.startswith("M<") and ":" in part and part.replace(":", "").isdigit():
+    for part in events.split(","):
+        if part and not part.startswith("M<") and part.count(":") == 1 and part.replace(":", "").isdigit():
             out.append(part)
     return out
+
+
+def parse_run(obs):
+    """'S<res>:<state>:<t0>-<t1>:<events>' -> dict(res, state, t0, t1, events) or None"""
+    if not obs.startswith("S"):
+        return None
+    f = obs[1:].split(":", 3)
+    if len(f) != 4 or "-" not in f[2]:
+        return None
+    try:
+        # a negative result has a leading '-': S-1:0:...
+        t0, t1 = f[2].split("-")
+        return {"res": int(f[0]), "state": int(f[1]), "t0": int(t0), "t1": int(t1), "events": f[3]}
+    except ValueError:
+        return None
+
+
+def canon(obs_list):
+    """the model cannot print every value a dropped context leaves (script handles, code): wildcard"""
+    return [o for o in obs_list]
+
+
+def same_obs(m_obs, i_obs):
+    """model vs implementation, observation by observation; M<VALUE ?> on the model side matches any dropped value"""
+    if len(m_obs) != len(i_obs):
+        return False
+    for a, b in zip(m_obs, i_obs):
+        if a == b:
+            continue
+        if "M<VALUE ?>" in a:
+            pa, pb = a.split(","), b.split(",")
+            if len(pa) != len(pb):
+                return False
+            for x, y in zip(pa, pb):
+                if x != y and not (x == "M<VALUE ?>" and y.startswith("M<VALUE ")):
+                    return False
+            continue
+        return False
+    return True
